@@ -50,7 +50,15 @@ fn mutate_ground(t: &ST, k: &mut usize, r: &mut Rng) -> ST {
 }
 fn gen_dataset(r: &mut Rng) -> Vec<Q> {
     let nb = r.range(1, 5);
-    match r.below(9) {
+    match r.below(11) {
+        9 | 10 => { // blank nodes ONLY as graph names (no blank node in any subject / predicate / object), including the very same
+            // triple in two graphs named by distinct blank nodes, one of which is also described elsewhere
+            let ng = r.range(2, 3); let mut v: Vec<Q> = vec![];
+            for i in 0..r.range(1, 4) { v.push(([iri("http://e/a"), iri(&format!("http://e/{}", r.ps(&["p", "q", "p1", "p2"]))), if r.chance(1, 2) { iri("http://e/b") } else { lit_lang("x", "en") }], Some(bnode(&format!("g{}", (i + r.below(2)) % ng))))); }
+            if r.chance(1, 2) { let t = [iri("http://e/s"), iri("http://e/p"), iri("http://e/o")]; v.push((t.clone(), Some(bnode("g0")))); v.push((t, Some(bnode("g1")))); }
+            if r.chance(1, 2) { v.push(([iri("http://e/about"), iri("http://e/q"), iri("http://e/c")], Some(bnode("g0")))); }
+            if r.chance(1, 3) { v.push(([iri("http://e/a"), iri("http://e/p"), iri("http://e/b")], None)); }
+            v }
         7 | 8 => { // statements sharing one quoted-triple skeleton, with DISTINCT blank nodes at one position of it (subject,
             // predicate or object, possibly one level deeper), and differing in a LATER position of the statement: a
             // blank-blind sort must order them by that later position whatever the labels are
@@ -99,6 +107,17 @@ fn iso_in(kind: usize, a: &[Q], b: &[Q]) -> bool {
         3 => isomorphic_datasets(&mk!(LightDataset, a), &mk!(HashSet<Q>, b)).unwrap(),
         _ => isomorphic_datasets(&mk!(BTreeSet<Q>, a), &mk!(FastDataset, b)).unwrap(),
     }
+}
+/// the GRAPH entry point: one graph of d1 seen through a filtered view of the whole dataset (its size hint is not exact)
+/// against the stand-alone list of the triples of the same graph of d2; None when the graph name is a blank node
+fn iso_graph_view(a: &[Q], b: &[Q], g: Option<&ST>) -> bool {
+    use sophia_isomorphism::isomorphic_graphs;
+    let av: Vec<Q> = a.to_vec();
+    let bt: Vec<[ST; 3]> = b.iter().filter(|q| match (&q.1, g) { (None, None) => true, (Some(x), Some(y)) => Term::eq(x, y.borrow_term()), _ => false }).map(|q| q.0.clone()).collect();
+    let view = av.graph(g.cloned());
+    let r1 = isomorphic_graphs(&view, &bt).unwrap();
+    let r2 = isomorphic_graphs(&bt, &view).unwrap();
+    r1 && r2
 }
 fn c_quad(q: &Q) -> String { format!("(mkQ {} {} {} {})", coq_term(&q.0[0]), coq_term(&q.0[1]), coq_term(&q.0[2]), coq_opt(q.1.as_ref().map(|g| coq_term(g)))) }
 fn dedup(v: &[Q]) -> Vec<Q> { let mut out: Vec<Q> = vec![]; for q in v { if !out.iter().any(|x| Quad::eq(x, (q.0.each_ref(), q.1.as_ref()))) { out.push(q.clone()) } } out }
@@ -161,6 +180,11 @@ non-trivial = at least 2 blank nodes and the pair passes the size and blanked-st
         if a.only.is_some() { println!("CASE {idx}: variant {variant} {text}\nIMPL {ans} (reverse {rev})"); }
         if ans != rev { sum.oracle_failures.push((idx.to_string(), format!("not symmetric: iso(d1,d2)={ans} iso(d2,d1)={rev}; {text}"))); }
         if expect_true && !ans { sum.oracle_failures.push((idx.to_string(), format!("false negative on a renamed and reordered copy; {text}"))); }
+        if expect_true {
+            // every ground-named graph of the copy, through the graph entry point and a dataset view
+            let mut names: Vec<Option<ST>> = vec![None]; for q in &d1 { if let Some(g) = &q.1 { if !g.is_blank_node() && !g.is_triple() && !names.iter().any(|n| n.as_ref() == Some(g)) { names.push(Some(g.clone())); } } }
+            for g in names { if !iso_graph_view(&d1, &d2, g.as_ref()) { sum.oracle_failures.push((idx.to_string(), format!("false negative of isomorphic_graphs on the graph {g:?} of a renamed and reordered copy (one side is a view of the dataset, the other a stand-alone list); {text}"))); } sum.bump("graph-entry-point"); }
+        }
         // must be false when sizes, blank node counts or blanked statements differ
         let mut k1: Vec<String> = d1.iter().map(blank_qkey).collect(); k1.sort(); let mut k2: Vec<String> = d2.iter().map(blank_qkey).collect(); k2.sort();
         let (mut b1, mut b2) = (BTreeSet::new(), BTreeSet::new());
